@@ -51,7 +51,10 @@ Core4 == {1, 4, 5, 11, 13, 15}
 Pres == <<
   True,
   Conj(C2("bb_put", kk, I(0)), C2("freeze", X, Log(C1("w0", X)))),
-  Conj(C2("bb_b_put", kk, I(0)), Conj(C2("dif", Y, a), Eq(W, C1("f", V0))))
+  Conj(C2("bb_b_put", kk, I(0)), Conj(C2("dif", Y, a), Eq(W, C1("f", V0)))),
+  (* two backtrackable updates of the same key in a row, nothing else trailed in between: the value to come back to *)
+  (* after the goal is the SECOND one                                                                                *)
+  Conj(C2("bb_b_put", kk, I(0)), C2("bb_b_put", kk, I(5)))
 >>
 
 NCons == 6
@@ -87,8 +90,8 @@ Init == m = [phase |-> "gen"] /\ sc = <<>>
 Quick == Tier = "quick"
 Gen ==
   /\ m.phase = "gen"
-  /\ \E v \in (IF Quick THEN ({1, 2} \X SeqsQuick) \cup ({3} \X Seqs(2, Core))
-                         ELSE ({1, 2} \X SeqsThorough) \cup ({3} \X SeqsQuick) \cup ({1} \X Seqs4)) :
+  /\ \E v \in (IF Quick THEN ({1, 2} \X SeqsQuick) \cup ({3} \X Seqs(2, Core)) \cup ({4} \X (Seqs(1, 1..NG) \cup Seqs(2, Core)))
+                         ELSE ({1, 2} \X SeqsThorough) \cup ({3, 4} \X SeqsQuick) \cup ({1} \X Seqs4)) :
        \E k \in 1..NCons :
           /\ sc' = <<v[1], k>> \o v[2]
           /\ m' = LoadX(Script(v[1], k, v[2]) \o Helpers, {}, A("q"))
